@@ -18,7 +18,7 @@ import types
 import uuid
 from typing import Any, Dict, List, Tuple
 
-from . import core
+from . import core, c19
 from .core import Report
 
 PROP = "C18"
@@ -402,6 +402,15 @@ def gen_value(rng, list_depth: int, obj_depth: int, nested_p: float) -> list:
     return gen_leaf(rng)
 
 
+def has_class(e, cid) -> bool:
+    """does the sx encoding of a returned value contain an object of class cid"""
+    if isinstance(e, list) and len(e) == 4 and e[0] == 6:
+        return e[1] == cid or any(has_class(k, cid) for k in e[3])
+    if isinstance(e, list) and len(e) == 2 and e[0] == 5:
+        return any(has_class(k, cid) for k in e[1])
+    return False
+
+
 def walk(d):
     yield d
     if d[0] == "l":
@@ -531,7 +540,9 @@ def run(tier: str, seed: int, replay=None) -> int:
     rep.oblige("build:spec", ok_spec, "" if ok_spec else core.first_error(log))
     model_ok = core.standard_proof_steps(
         rep, PROP, ["Props/C18.vo"],
-        regen=[("Gen/JsonResolve.v", lambda: t_json.translate(str(core.REPO)), core.COQ / "Gen" / "JsonResolve.v")])
+        regen=[c19.regen_entry()])
+    if model_ok and tier == "thorough" and not replay:
+        c19.coqchk(rep, PROP)
     world()
     findings = core.load_findings(PROP)
     corpus = load_corpus()
@@ -583,7 +594,9 @@ def run(tier: str, seed: int, replay=None) -> int:
             else:
                 rep.oblige("correspondence:model", False, f"model differs from impl=spec on {json.dumps(d)[:300]}")
             continue
-        if code == 2 and nested:
+        # known finding C18-a: narrow match = the class predicate AND the outcome the faithful model predicts (code 2);
+        # when the model cannot be built, the outcomes recorded with the witness (ClassNotFoundError, or an instance of class 60)
+        if nested and (code == 2 or (not model_ok and (im == [20, 4] or (im[0] == 0 and has_class(im[1], 60))))):
             kf_instances["C18-a"] = kf_instances.get("C18-a", 0) + 1
             continue
         bad.append((d, im, code))
@@ -610,8 +623,14 @@ def run(tier: str, seed: int, replay=None) -> int:
 
     # report the smallest failing cases first
     bad.sort(key=lambda b: len(json.dumps(b[0])))
-    for d, im, code in bad[:5]:
+    reported = set()
+    for d, im, code in bad[:40]:
+        if len(reported) >= 5:
+            break
         d = shrink(d, im) if not replay else d
+        if json.dumps(d) in reported:
+            continue
+        reported.add(json.dumps(d))
         im = run_impl(d)
         try:
             exprs = [f"spec_round_trip {vterm(d)}"] + ([f"model_round_trip W {vterm(d)}"] if model_ok else [])
